@@ -125,7 +125,7 @@ func Load(dir string, overlay map[string][]byte) (*Program, error) {
 		if !strings.HasPrefix(pkg, modPath) {
 			continue
 		}
-		if fn.Synthetic != "" && fn.Origin() == nil {
+		if fn.Synthetic != "" && fn.Origin() == nil && fn.Synthetic != "package initializer" {
 			continue // wrappers, bound methods, thunks
 		}
 		name := QualName(fn)
